@@ -616,6 +616,9 @@ class PyExec:
         seq = args[0]
         if not isinstance(seq, (tuple, list)):
             raise Unsupported("reduce over non-tuple")
+        if self.mod.is_jax:
+            # validated against jax 0.11: TypeError "reduce requires ndarray or scalar arguments, got tuple"
+            raise ArtefactError("TypeError", f"jax.numpy.{name}.reduce over a python tuple is not array-like")
         nums = [self.as_num(v) for v in seq]
         vecs = [x.vec for x in nums]
         if any(vecs) and not all(vecs):
